@@ -1722,6 +1722,11 @@ func (env *LEnv) call(ctx context.Context, fun *LVal, args *LVal) *LVal {
 		// builtin returns.
 		prev := env.evalCtx
 		env.evalCtx = ctx
+		// A builtin that panics never reaches the restore below: the panic
+		// unwinds to the recover in eval, and for a top-level form env is the
+		// root env, which would keep ctx -- possibly cancelled later -- for
+		// every later non-Context entry point.  Restore on that path too.
+		defer func() { env.evalCtx = prev }()
 		val := fn(env, list)
 		env.evalCtx = prev
 		if val == nil {
